@@ -8,13 +8,13 @@ def _c20_nontrivial(cf):
 
 
 CONFIG = dict(
-    correspondence="GoImap.ListMatch.matchListTop (Model/ListMatch.lean) vs imapserver.MatchList on the same (name, delimiter, reference, pattern)",
-    rule="exhaustive small scope: every name over {a,b,/} up to length 5 (thorough 6) x every pattern over {a,b,/,*,%} up to length 4 (thorough 5) x delimiter {'/', none} x references {'', a, a/, b/a}, one case line per (delimiter, reference, pattern) carrying a bitmap over all names; plus random longer names/patterns incl. UTF-8 and other delimiters. Non-trivial = the pattern contains a wildcard; distinct = different case line",
+    correspondence="GoImap.ListMatch.matchListTopS (Model/ListMatch.lean, the mirror of the repaired matcher; delimiter STRING of any length) vs imapserver.MatchList on the same (name, delimiter, reference, pattern)",
+    rule="exhaustive small scope: every name over {a,b,/} up to length 5 (thorough 6) x every pattern over {a,b,/,*,%} up to length 4 (thorough 5) x delimiter {'/', none} x references {'', a, a/, b/a}, one case line per (delimiter, reference, pattern) carrying a bitmap over all names; plus random longer names/patterns incl. UTF-8 and other delimiters ('.', 'a', U+00B7, U+00E9, U+2192, U+1F600, the delimiter placed where '/' was), plus every name of at most 4 CHARACTERS over {a, delimiter, a character sharing bytes with it} x every pattern of at most 3 over {a, delimiter, *, %} for the delimiters U+00B7 and U+2192. Non-trivial = the pattern contains a wildcard; distinct = different case line",
     nontrivial=_c20_nontrivial,
     exhaustive=True,
     trusted=["strings.IndexAny/HasPrefix/TrimPrefix are modelled by byte-level recursion (agreement exercised exhaustively in the small scope)"],
-    assumptions=["the oracle (theorems and Spec) covers an absent or single-byte ASCII delimiter; other delimiter runes are compared with the model only"],
+    assumptions=["multi-byte delimiters: matchListS_iff is a byte-level statement ('%' = a sequence inside which no delimiter string starts); that this is the character-level semantics for valid UTF-8 (self-synchronisation) is not proved: the rune-level oracle Spec.runeOracle (the proved single-symbol semantics applied to code points) judges every valid-UTF-8 case of every run; names/patterns that are not valid UTF-8 are compared with the model only when the delimiter is not ASCII"],
     leanchecker=True,
-    level_text="proof: matchList_iff shows the mirrored recursive matcher accepts exactly the names the inductive wildcard semantics (Spec.Matches) accepts, for all patterns, names and delimiters; the mirror is tied to imapserver.MatchList exhaustively in a small scope and randomly beyond on every run, and an independent position-set matcher written from the RFC is evaluated on the implementation's answers",
+    level_text="proof: matchList_iff shows the mirrored recursive matcher accepts exactly the names the inductive wildcard semantics (Spec.Matches) accepts, for all patterns, names and delimiters (matchList_iff for a one-byte or absent delimiter, matchListS_iff for delimiter strings of any length after the repair of F45, with Legacy counterexamples for the shipped byte-to-rune comparison); the mirror is tied to imapserver.MatchList exhaustively in a small scope and randomly beyond on every run, and an independent position-set matcher written from the RFC is evaluated on the implementation's answers",
     level_note="Trusted: Lean kernel; harness/driver; the byte-level normal form of the chunked Go loop (validated exhaustively for names<=5/patterns<=4 over a 3/5-letter alphabet).",
 )
